@@ -209,6 +209,8 @@ int run_gc(const Args& a) {
                 std::size_t nops = tr.range(1, 12);
                 for (std::size_t i = 0; i < nops; ++i) {
                     const std::string& k = hot[tr.below(hot.size())];
+                    // sometimes the retiring session itself stays open across epoch advances before it retires
+                    if (tr.chance(1, 5)) { std::this_thread::sleep_for(std::chrono::microseconds(tr.range(300, 4000))); }
                     if (tr.chance(2, 3)) {
                         char* created = nullptr;
                         yk::inserted_node_info ini{};
